@@ -29,9 +29,9 @@ import (
 // Evidence recorded inside the callbacks (independent of which goroutine runs them): the handler flag
 // must be clear (a callback never overlaps a handler), the owner must not have seen its own
 // OnTerminated yet (`after-terminated`), the incarnation must be the one that registered the task
-// (`stale`), the real time must not be a tick or more before the due time (`early`). Idle-deadline and
+// (`stale`), the real time must not be before the due time (minus earlySlackMs) (`early`). Idle-deadline and
 // expiry are judged one-sidedly: the OnTerminate of a termination nobody asked for must not come before
-// last turn + idle - tick (or creation + expire - tick).
+// last turn + idle - earlySlackMs (or creation + expire - earlySlackMs).
 // Timing discipline as in the `scheduler` suite (absolute schedule, event-driven settling, validity
 // check on the real clock, `-` when the machine was too slow).
 
@@ -119,7 +119,7 @@ func (r *actorRunner) shutdown() {
 func (r *actorRunner) turnBegins() {
 	if r.idle > 0 {
 		gap := time.Duration(time.Now().UnixNano()-r.lastTurn.Load()) * time.Nanosecond
-		if gap >= time.Duration(r.idle-tickMs-1)*time.Millisecond {
+		if gap >= time.Duration(r.idle-earlySlackMs)*time.Millisecond {
 			r.idleDue.Store(true)
 		}
 	}
@@ -146,7 +146,7 @@ func (r *actorRunner) receive(ctx vivid.ActorContext) {
 		if !r.termAsked.Load() && r.incarnationStable() {
 			now := wallNow()
 			ok := false
-			slack := time.Duration(tickMs+1) * time.Millisecond
+			slack := time.Duration(earlySlackMs) * time.Millisecond
 			if r.idle > 0 && r.idleDue.Load() {
 				ok = true
 			}
